@@ -58,6 +58,11 @@ def main():
         # evaluate the checks on /repo
         rca, o = sh(f"git apply {patch}", cwd="/repo")
         res["checks"] = {}
+        if os.path.exists(f"{dst}/meta.json"):
+            try:
+                res["checks"] = {k: v for k, v in json.load(open(f"{dst}/meta.json")).get("checks", {}).items() if "@" in k}
+            except Exception:
+                pass
         if rca:
             res["checks"]["error"] = f"patch does not apply to /repo: {o[:200]}"
         else:
@@ -71,13 +76,13 @@ def main():
                         if "NEW " in l or l.startswith("  new:") or "signature" in l and "/" in l:
                             first = l.strip()[:300]
                             break
-                    res["checks"][cid] = {"tier": tier, "exit": rc, "violation_lines": len(viol), "seconds": round(time.time() - t0, 1),
+                    res["checks"][f"{cid}@{tier}"] = {"tier": tier, "exit": rc, "violation_lines": len(viol), "seconds": round(time.time() - t0, 1),
                                           "detected": bool(rc == 1 and viol), "first": first}
             finally:
                 sh("git checkout -- .", cwd="/repo")
         assert sh("git status --porcelain", cwd="/repo")[1].strip() == "", "/repo not restored"
         json.dump(res, open(f"{dst}/meta.json", "w"), indent=1)
-        print(name, "confirmed=", res.get("confirmed"), {k: (v.get("detected"), v.get("violation_lines")) if isinstance(v, dict) else v for k, v in res["checks"].items()},
+        print(name, "confirmed=", res.get("confirmed"), {k: (v.get("detected"), v.get("violation_lines")) if isinstance(v, dict) else v for k, v in res["checks"].items() if k.endswith("@" + tier)},
               "|", (ch.get("summary") or "")[:110])
 
 
